@@ -565,7 +565,17 @@ def run_world(size: int, fn: Callable[[int], Any], seed: int = 0, policy: str = 
     """Run fn(rank) on `size` simulated ranks; returns the finished World."""
     install()
     w = World(size, seed, policy)
-    return w.run(fn)
+    import os
+    saved = {k: os.environ.get(k) for k in ('LOCAL_RANK', 'LOCAL_WORLD_SIZE')}
+    os.environ['LOCAL_RANK'] = '0'; os.environ['LOCAL_WORLD_SIZE'] = '1'
+    try:
+        return w.run(fn)
+    finally:
+        for k, v in saved.items():
+            if v is None:
+                os.environ.pop(k, None)
+            else:
+                os.environ[k] = v
 
 
 def comm_log(w: World, rank: int | None = None, kinds=None) -> list[tuple]:
